@@ -777,7 +777,7 @@ _add_rt2("C08", "AUDIT ROUND 2: the counter of gather_futures AS SHIPPED (fix 60
          "gather's counter by the lock (theorem above), an assumption for the other callback bodies beyond one worker; the locked-counter theorem is not "
          "lifted into the executor tree. (4) always_terminates is deadlock-freedom; no theorem bounds the number of tasks an operation submits (the harness "
          "runs every schedule to the end; `pending` is a failing case there).")
-_add_rt2("C16", "AUDIT ROUND 2: field_events_inside_execution (for every request that reaches the executor the trace is stage events ++ [execution+] ++ "
+_add_rt2("C16", "AUDIT ROUND 2: deferred_field_middlewares_exit_at_submission (the exact deferred form: resolve_field emits field+, every middleware entry, every middleware exit and nothing else; call / ret / field- come with the task), field_events_inside_execution (for every request that reaches the executor the trace is stage events ++ [execution+] ++ "
                 "executor run ++ [execution-] ++ [query-], the executor run has no stage event: every field / middleware / resolver event lies inside the "
                 "execution stage, every executor, runtime and schedule of the model); named probe middleware-deferred.",
          "Known finding N8 (c16:middleware-exits-before-deferred-resolver:threadpool): apply_middlewares wraps runtime.wrap_callable(resolver), so on a runtime "
